@@ -35,7 +35,9 @@ def handle (j : Json) : R (List (String × Json)) := do
       else Json.mkObj []
     return [("model", model), ("oracle", oracle),
             ("info", Json.mkObj [("base_ok", Json.bool baseOk), ("exists_feasible", Json.bool exists_),
-                                 ("impl_any_ok", Json.bool implAny.isSome)])]
+                                 ("impl_any_ok", Json.bool implAny.isSome),
+                                 -- the case satisfies the hypotheses of `C06Complete.evalJob_any_complete_hyps`
+                                 ("in_completeness_theorem", Json.bool (completeHyps c job))])]
   else if k == "multi" then
     let jobs ← listF (parseJob dims) j "jobs"
     let dems := jobs.map (·.dem)
